@@ -1316,6 +1316,9 @@ func tallCase(c *ev.Case) {
 func parallelCase(c *ev.Case) {
 	g := c.Rng.Range(4, 8)
 	per := c.Rng.Pick(20000, 40000)
+	if strings.HasSuffix(c.Engine, "/race") {
+		per = 4000 // the detector needs the accesses, not the collision
+	}
 	seeds := make([]uint64, g)
 	for i := range seeds {
 		seeds[i] = c.Rng.Uint64()
@@ -1416,6 +1419,9 @@ func main() {
 	r.Cases("zero", r.N(3*len(zeroMethods)*2*4, 3*len(zeroMethods)*2*200), ev.Opt{HangViolation: true}, zeroCase)
 	r.Cases("tall", r.N(3000, 150000), ev.Opt{HangViolation: true}, tallCase)
 	r.Cases("parallel-private", r.N(40, 1000), ev.Opt{Workers: 2}, parallelCase)
+	// the same under the race detector: state shared between lists that no goroutine shares is
+	// reported from the happens-before relation, whether or not the accesses collide in this run
+	r.CasesProc("parallel-private/race", r.N(8, 100), ev.Opt{Bin: "race", Procs: 2, Workers: 1, AlwaysLog: true}, parallelCase)
 	// cold start: one fresh process per case, so that whatever operation the case begins
 	// with (on a zero value, a new list, a scripted list) is the first skip-list call of the process
 	r.CasesProc("cold-start/seq", 16, ev.Opt{Procs: 16, HangViolation: true}, seqCase)
